@@ -306,6 +306,11 @@ def run(chk: Check) -> None:
                 "the modelled algorithm violates a discriminator clause: model and design notes out of date")
     allpos = 4 if thorough else 2
     for fam, scen in fams.items():
+        if fam == "obj" and not thorough:
+            # quick tier: every 2-variant object union, a deterministic third of the 3-variant ones (the design check above is
+            # exhaustive in both tiers; the thorough tier replays all of them)
+            scen = [d for d in scen if len(d["u"]["vars"]) == 2 or stable_hash(ukey(d["u"]), chk.seed) % 3 == 0]
+            chk.cov["exhaustive_replay"] = False
         replay_direct(chk, scen, fam, allpos)
     replay_generated(chk, pick_generated(chk, fams, 300 if thorough else 200), "generated")
     chk.cov["exhaustive"] = True
